@@ -115,12 +115,10 @@ Qed.
 Definition h_node (d : dist) (fx fz n e s w : bool) : K := pick d (xorb (xorb fx e) w) (xorb (xorb fz n) s).
 Definition v_node (d : dist) (fx fz n e s w : bool) : K := h_node d fx fz e s w n.
 Lemma h_node_is_prob d fx fz n e s w :
-  h_node d fx fz n e s w
-  = rI * prob d 1 (xorv [fx; fz] (xorv [false; n] (xorv [e; false] (xorv [false; s] [w; false])))) \/
-  h_node d fx fz n e s w
-  = prob d 1 (xorv [fx; fz] (xorv [false; n] (xorv [e; false] (xorv [false; s] [w; false])))) * rI.
+  prob d 1 (xorv [fx; fz] (xorv [false; n] (xorv [e; false] (xorv [false; s] [w; false]))))
+  = h_node d fx fz n e s w * rI.
 Proof.
-  right. unfold h_node, prob. cbn [xorv firstn skipn prob_xz].
+  unfold h_node, prob. cbn [xorv firstn skipn prob_xz].
   replace (xorb fx (xorb false (xorb e (xorb false w)))) with (xorb (xorb fx e) w) by (destruct fx, e, w; reflexivity).
   replace (xorb fz (xorb n (xorb false (xorb s false)))) with (xorb (xorb fz n) s) by (destruct fz, n, s; reflexivity).
   reflexivity.
